@@ -1309,3 +1309,44 @@ Proof.
       rewrite get_tset, N.eqb_refl, Hget1. cbn [option_map]. eexists. split; [reflexivity|]. reflexivity.
     + intros Hall. exfalso. eapply Hall; eauto.
 Qed.
+
+(** ---- a slot stays live as long as it is not freed (used for the root scope, slot 0) ---- *)
+Lemma glive_astep g o i : glive g i -> o <> OpFree i -> glive (astep g o) i.
+Proof.
+  intros [Hlt Hnin] Hne.
+  assert (Hsk : forall p l, glive (set_kids g p l) i).
+  { intros p l. split; [rewrite set_kids_len; auto | exact Hnin]. }
+  destruct o as [opc th|opc th nm|a b|a b c|a b|x]; cbn [astep]; auto.
+  - destruct (g_free g) as [|y rest] eqn:E; split; cbn [g_kids g_free]; auto.
+    + rewrite app_length. cbn [length]. lia.
+    + intros Hin. apply Hnin. right. exact Hin.
+  - destruct (g_free g) as [|y rest] eqn:E; split; cbn [g_kids g_free]; auto.
+    + rewrite app_length. cbn [length]. lia.
+    + intros Hin. apply Hnin. right. exact Hin.
+  - assert (Hxi : x <> i) by (intros ->; apply Hne; reflexivity).
+    destruct (parent_of g x) as [p|]; split; cbn [g_kids g_free]; try (rewrite set_kids_len); auto;
+      intros [E|Hin]; auto.
+Qed.
+
+Lemma glive_arun ops : forall g i, glive g i -> ~ In (OpFree i) ops -> glive (arun g ops) i.
+Proof.
+  induction ops as [|o ops IH]; intros g i Hl Hn; cbn [arun]; auto.
+  apply IH.
+  - apply glive_astep; auto. intros ->. apply Hn. left. reflexivity.
+  - intros Hin. apply Hn. right. exact Hin.
+Qed.
+
+(** From the empty tree: after any legal history that starts with a creation and never frees slot 0,
+    the tree is well-formed and its root scope (slot 0) is live. *)
+Lemma run_root_live {V} (o : op) (ops : list op) :
+  legal_seq ghost0 (o :: ops) -> (exists opc th, o = OpNew opc th) \/ (exists opc th nm, o = OpNewNamed opc th nm) ->
+  ~ In (OpFree 0) ops ->
+  exists t', run (@NewObjectTree V) (o :: ops) = Ok t' /\ R t' (arun ghost0 (o :: ops)) /\ live t' 0.
+Proof.
+  intros HL Hnew Hnf.
+  destruct (run_R (o :: ops) (@NewObjectTree V) ghost0 R_empty HL) as (t' & Hrun & HR').
+  exists t'. split; auto. split; auto.
+  apply (R_live_glive t' _ HR'). cbn [arun]. apply glive_arun; auto.
+  destruct Hnew as [(opc & th & ->)|(opc & th & nm & ->)]; cbn [astep ghost0 g_free g_kids app]; split;
+    cbn [g_kids g_free length In]; try lia; intros [].
+Qed.
